@@ -1119,6 +1119,14 @@ func (w *World) checkEntriesOnlyUnderKeys(r *Report, keyT, entryT types.Type) {
 			if types.Identical(o.Type(), entryT) {
 				continue
 			}
+			// record types that only ever live in locals (a candidate list built for one
+			// eviction pass) are not stores: a type counts when it has methods of its own
+			// state (objects: contexts, engines, loaders) or is part of another such type or
+			// of a package-level variable — the latter is covered by walking those.
+			nt, isNamedT := o.Type().(*types.Named)
+			if !isNamedT || !keepsState(nt) {
+				continue
+			}
 			t = o.Type().Underlying()
 		default:
 			continue
@@ -1129,4 +1137,18 @@ func (w *World) checkEntriesOnlyUnderKeys(r *Report, keyT, entryT types.Type) {
 		}
 	}
 	r.ok("R20.7", "(package scope)", "resolved lookups are kept only under whole keys", "-", fmt.Sprintf("%d package-level variables and types hold no attributeCacheEntry outside the keyed map", n), true)
+}
+
+
+// keepsState: a named struct type with at least one pointer-receiver method (an object whose
+// fields outlive a call).
+func keepsState(nt *types.Named) bool {
+	for i := 0; i < nt.NumMethods(); i++ {
+		if sig, ok := nt.Method(i).Type().(*types.Signature); ok && sig.Recv() != nil {
+			if _, isPtr := sig.Recv().Type().(*types.Pointer); isPtr {
+				return true
+			}
+		}
+	}
+	return false
 }
